@@ -1483,7 +1483,7 @@ func init() {
 		Run:   runH2,
 		Shape: shapeH2,
 		Real:  real, Stub: stub,
-		Rule: "1-4 concurrent streams in both directions; DATA frames of 0..16384 bytes with and without padding; endpoints announce INITIAL_WINDOW_SIZE from 0 to 1 MiB and MAX_FRAME_SIZE up to 1 MiB, change the initial window up and down midway (scheduler events), and return credit either at once or lazily in small steps at scheduler-chosen moments. Receiver-side ledger: credit = 65,535 + own WINDOW_UPDATEs +/- own INITIAL_WINDOW_SIZE changes - DATA frame lengths, never negative (decreases applied from the first drained quiescent point after the SETTINGS reached the relay); no frame above the largest announced MAX_FRAME_SIZE. Sender-side ledger at the end: WINDOW_UPDATE increments received == flow-controlled octets sent, per connection and per unfinished stream.",
+		Rule: "1-4 concurrent streams in both directions; DATA frames of 0..16384 bytes with and without padding; endpoints announce INITIAL_WINDOW_SIZE from 0 to 1 MiB and MAX_FRAME_SIZE up to 1 MiB, change the initial window up and down midway (scheduler events), and return credit either at once or lazily in small steps at scheduler-chosen moments. Receiver-side ledger: credit = 65,535 + own WINDOW_UPDATEs +/- own INITIAL_WINDOW_SIZE changes - DATA frame lengths, never negative (decreases applied from the first drained quiescent point after the SETTINGS reached the relay); no frame above the largest announced MAX_FRAME_SIZE. Sender-side ledger at the end: WINDOW_UPDATE increments received == flow-controlled octets sent, per connection and per unfinished stream. Later additions: bursts above the relay's output channel (whose capacity is a per-run knob), small link capacities, early credit grants, GOAWAY in the middle of the traffic, credit return judged before the windows are opened wide.",
 	})
 	core.Register(&core.World{
 		Property: "C10", Name: "c10-h2-streams", Level: "exploration",
@@ -1491,7 +1491,7 @@ func init() {
 		Run:   runH2,
 		Shape: shapeH2,
 		Real:  real, Stub: stub,
-		Rule: "same world; header blocks from a few bytes to ~50 KiB (above the max frame size) split by the sender at arbitrary points into HEADERS+CONTINUATION, static and unique field names (HPACK dynamic table churn), optional HEADER_TABLE_SIZE settings, END_STREAM on HEADERS / last DATA / empty DATA / trailers, RST_STREAM, PRIORITY, PING, GOAWAY. Oracle: per stream and direction the receiver's decoded history (own hpack.Decoder) equals the sender's; SETTINGS/PING/PRIORITY/GOAWAY relayed; after both endpoints open their windows wide every scripted sender finishes (bounded scheduler steps).",
+		Rule: "same world; header blocks from a few bytes to ~50 KiB (above the max frame size) split by the sender at arbitrary points into HEADERS+CONTINUATION, static and unique field names (HPACK dynamic table churn), optional HEADER_TABLE_SIZE settings, END_STREAM on HEADERS / last DATA / empty DATA / trailers, RST_STREAM, PRIORITY, PING, GOAWAY. Oracle: per stream and direction the receiver's decoded history (own hpack.Decoder) equals the sender's; SETTINGS/PING/PRIORITY/GOAWAY relayed; after both endpoints open their windows wide every scripted sender finishes (bounded scheduler steps). Later additions: bursts above the relay's output channel (whose capacity is a per-run knob), small link capacities, early credit grants, GOAWAY in the middle of the traffic, credit return judged before the windows are opened wide.",
 	})
 }
 
